@@ -233,15 +233,23 @@ func genHeaders(t *rapid.T) ([]hdrLine, []string) {
 	return out, cls
 }
 
+// genKeyCase: the spellings a peer may use for a field name: the project's own,
+// all upper, all lower, alternating, MIME title case ("Cseq", "Www-Authenticate",
+// "Rtp-Info" differ from the RFC spelling there), or any per-letter pattern.
+func genKeyCase() *rapid.Generator[int] {
+	return rapid.OneOf(rapid.IntRange(0, 4), rapid.IntRange(0, 4),
+		rapid.Map(rapid.IntRange(0, 1<<24-1), func(m int) int { return m<<4 | 16 }))
+}
+
 func genStyle(t *rapid.T) wireStyle {
 	return wireStyle{
-		KeyCase:   rapid.SliceOfN(rapid.IntRange(0, 3), 1, 8).Draw(t, "keycase"),
+		KeyCase:   rapid.SliceOfN(genKeyCase(), 1, 8).Draw(t, "keycase"),
 		Sep:       rapid.SliceOfN(rapid.IntRange(0, 3), 1, 8).Draw(t, "sep"),
 		Trail:     rapid.SliceOfN(rapid.IntRange(0, 2), 1, 8).Draw(t, "trail"),
 		Split:     rapid.SliceOfN(rapid.Bool(), 1, 8).Draw(t, "split"),
 		CLPos:     rapid.IntRange(0, 8).Draw(t, "clpos"),
 		CLZero:    rapid.IntRange(0, 3).Draw(t, "clzero") == 0,
-		CLCase:    rapid.IntRange(0, 3).Draw(t, "clcase"),
+		CLCase:    genKeyCase().Draw(t, "clcase"),
 		JoinTight: rapid.IntRange(0, 3).Draw(t, "tight") == 0,
 	}
 }
